@@ -240,6 +240,33 @@ impl HostSide {
                     None => StepRes::new("NOSLOT"),
                 }
             }
+            // the root is never forgotten: FORGET / BATCH_FORGET naming it have no effect, whatever the count
+            "forget_root" => StepRes::ok(),
+            "batch_forget" => {
+                for it in op["items"].as_array().cloned().unwrap_or_default() {
+                    let n = it[0].as_i64().unwrap_or(-1);
+                    if n > 0 {
+                        if let Some(fd) = self.ns.get_mut(n as usize).and_then(|v| v.take()) {
+                            unsafe { libc::close(fd) };
+                        }
+                    }
+                }
+                StepRes::ok()
+            }
+            // DESTROY + INIT: the session ends, every reference and handle of the client is gone; the export stays as configured
+            "remount" => {
+                for h in self.hs.iter_mut() {
+                    if let Some(x) = h.take() {
+                        unsafe { libc::close(x.fd) };
+                    }
+                }
+                for n in self.ns.iter_mut().skip(1) {
+                    if let Some(fd) = n.take() {
+                        unsafe { libc::close(fd) };
+                    }
+                }
+                StepRes::ok()
+            }
             "getattr" => {
                 let Some(nfd) = self.node(op, "n") else { return StepRes::new("NOSLOT") };
                 let fd = if i(op, "h") >= 0 {
